@@ -12,7 +12,11 @@ ASSUMPTIONS = [
     "reset counts as 'frame 0, microframe 0': a first SOF with frame number 0 is a repeat (no new_frame, microframe 1)",
     "a SOF is what the token detector reports (interface.new_frame with interface.frame); that this is exactly the well-formed SOF packets "
     "on UTMI is C01's subject and is here only covered by correspondence: target `device_utmi` is the complete USBDevice driven over the "
-    "UTMI receive bus, compared with the end-to-end specification e2e_step (packetiser + PID 0xA5 + CRC5 + frame recurrence)",
+    "UTMI receive bus, compared with the end-to-end specification e2e_step (packetiser + PID 0xA5 + CRC5 + frame recurrence), also as a "
+    "runtime oracle (e2e_mon). Its histories use several rx_valid pacings (back-to-back, 1, 2, random, and full-speed style 39 idle "
+    "cycles between bytes with rx_active held) and, between real SOFs, OUT/SETUP transactions (to address 0 and to other addresses) "
+    "whose DATA0/1 packets are adversarial: valid CRC16 with the last three bytes forming a well-formed SOF/other token, raw token "
+    "tails, token bytes mid-payload, truncations; plus handshakes, malformed and over-long SOFs",
     "the kernel-checked netlist = model tie is over all traces whose (sof, frame) words use frame numbers from a finite set that exercises "
     "every frame bit both ways (0, all-ones, every one-hot and one-cold pattern, alternating patterns); all 2^11 values only by correspondence",
     "microframe_number is a 3-bit counter: more than 8 SOFs with the same frame number wrap it (not excluded, modelled)",
@@ -117,29 +121,98 @@ def logic_traces(rng, n):
     return out
 
 
+def crc16(data):
+    crc = 0xFFFF
+    for byte in data:
+        for i in range(8):
+            top = ((crc >> 15) & 1) ^ ((byte >> i) & 1)
+            crc = (crc << 1) & 0xFFFF
+            if top: crc ^= 0x8005
+    crc ^= 0xFFFF
+    wire = int('{:016b}'.format(crc)[::-1], 2)
+    return [wire & 0xFF, wire >> 8]
+
+
+def data_packet(pid, payload):
+    return [pid] + list(payload) + crc16(payload)
+
+
+def token_like(b1, b2):
+    return (b2 >> 3) == crc5(b1 | ((b2 & 7) << 8))
+
+
+def crafted_data(rng, tail_pid):
+    """A well-formed DATA0/DATA1 packet (valid CRC16) whose LAST THREE bytes read as a well-formed token
+    (tail_pid byte, then CRC16 bytes that also pass the token CRC5 check): found by searching the byte(s) in front."""
+    pid = rng.choice([0xC3, 0x4B])
+    for _ in range(4000):
+        payload = [rng.randrange(256) for _ in range(rng.randint(0, 5))] + [tail_pid]
+        c = crc16(payload)
+        if token_like(c[0], c[1]):
+            return [pid] + payload + c
+    return [pid, tail_pid] + token_bytes(5, 57)[1:]
+
+
+def paced_packet(rng, data, gap, first_valid=False):
+    """UTMI receive cycles of one packet with rx_valid low for `gap()` cycles before every byte and at the end
+    (full-speed style pacing when gap is ~39; rx_active stays high)."""
+    cyc = [dict(rx_active=1, rx_valid=int(first_valid), rx_data=rng.randrange(256))]
+    for b in data:
+        cyc += [dict(rx_active=1, rx_valid=0, rx_data=rng.choice([b, rng.randrange(256)]))] * gap()
+        cyc.append(dict(rx_active=1, rx_valid=1, rx_data=b))
+    cyc += [dict(rx_active=1, rx_valid=0, rx_data=rng.randrange(256))] * gap()
+    return cyc
+
+
+TOKEN_PIDS = [0xE1, 0x69, 0x2D, 0xB4]   # OUT IN SETUP PING
+
+
 def device_traces(rng, n):
-    from props.C04 import rx_packet
     out = []
     for k in range(n):
+        flavour = k % 6                      # pacing: 0 none, 1 one idle cycle, 2 two, 3 FS (39), 4 random 0..3, 5 random incl. 39
+        gap = [lambda: 0, lambda: 1, lambda: 2, lambda: 39, lambda: rng.randrange(4),
+               lambda: rng.choice([0, 1, 2, 5, 39])][flavour]
+        npk = rng.randint(2, 6) if flavour in (3, 5) else rng.randint(3, 14)
         tr = [dict(rx_active=0, rx_valid=0, rx_data=0)] * rng.randint(0, 3)
-        for f in frame_seq(rng, rng.randint(1, 14)):
-            r = rng.random()
-            if r < 0.70:
-                data = token_bytes(0x5, f)                                     # well-formed SOF
-            elif r < 0.76:
-                data = token_bytes(0x5, f); data[2] ^= 1 << rng.randrange(8)   # CRC / frame bit error
-            elif r < 0.80:
-                data = token_bytes(0x5, f)[:rng.randint(1, 2)]                 # truncated
-            elif r < 0.84:
-                data = token_bytes(0x5, f) + [rng.randrange(256)]              # too long
-            elif r < 0.92:
-                data = token_bytes(rng.choice([0x1, 0x9, 0xD, 0x4]), rng.randrange(2048))   # OUT/IN/SETUP/PING token
-            elif r < 0.96:
-                data = [rng.choice([0xD2, 0x5A, 0x1E])]                        # handshake
-            else:
-                data = [0xC3] + [rng.randrange(256) for _ in range(rng.randint(0, 6))]      # DATA0 packet (CRC not needed here)
-            tr += rx_packet(rng, data, first_valid=(k % 5 == 1 and rng.random() < 0.5), gaps=(0.25 if k % 3 == 2 else 0.0))
+        def send(data):
+            nonlocal tr
+            tr += paced_packet(rng, data, gap, first_valid=(k % 5 == 1 and rng.random() < 0.5))
             tr += [dict(rx_active=0, rx_valid=0, rx_data=rng.randrange(256))] * rng.choice([1, 1, 2, 3, 6])
+        for f in frame_seq(rng, npk):
+            r = rng.random()
+            if r < 0.45:
+                send(token_bytes(0x5, f))                                      # well-formed SOF
+            elif r < 0.50:
+                d = token_bytes(0x5, f); d[2] ^= 1 << rng.randrange(8); send(d)   # CRC / frame bit error
+            elif r < 0.54:
+                send(token_bytes(0x5, f)[:rng.randint(1, 2)])                  # truncated
+            elif r < 0.58:
+                send(token_bytes(0x5, f) + [rng.randrange(256)])               # too long
+            elif r < 0.64:
+                send(token_bytes(rng.choice([0x1, 0x9, 0xD, 0x4]), rng.randrange(2048)))   # OUT/IN/SETUP/PING token
+            elif r < 0.68:
+                send([rng.choice([0xD2, 0x5A, 0x1E, 0x96])])                   # handshake
+            else:
+                # OUT / SETUP transaction (to us = address 0, or to another device) whose data packet is adversarial
+                addr = rng.choice([0, 0, rng.randrange(128)]); ep = rng.randrange(16)
+                send(token_bytes(rng.choice([0x1, 0xD]), addr | (ep << 7)))
+                q = rng.random()
+                fake = token_bytes(rng.choice([0x5, 0x5, 0x5, 0x1, 0x9]), rng.randrange(2048))
+                if q < 0.40:      # valid CRC16, and the last three bytes are a well-formed SOF (or other) token
+                    send(crafted_data(rng, rng.choice([0xA5, 0xA5, 0xA5] + TOKEN_PIDS)))
+                elif q < 0.60:    # raw: payload tail is a well-formed token (packet CRC16 then wrong)
+                    send([rng.choice([0xC3, 0x4B])] + [rng.randrange(256) for _ in range(rng.randint(0, 5))] + fake)
+                elif q < 0.80:    # well-formed token bytes in the middle of a valid data packet
+                    send(data_packet(rng.choice([0xC3, 0x4B]), [rng.randrange(256) for _ in range(rng.randint(0, 3))] + fake +
+                                     [rng.randrange(256) for _ in range(rng.randint(1, 3))]))
+                elif q < 0.90:    # truncated data packet ending inside / right after the fake token
+                    d = [0xC3] + [rng.randrange(256) for _ in range(rng.randint(0, 2))] + fake
+                    send(d[:rng.randint(1, len(d))])
+                else:
+                    send(data_packet(0xC3, [rng.randrange(256) for _ in range(rng.randint(0, 8))]))
+                if rng.random() < 0.3:
+                    send([rng.choice([0xD2, 0x5A])])
         tr += [dict(rx_active=0, rx_valid=0, rx_data=0)] * 3
         out.append(tr)
     return out
@@ -178,6 +251,11 @@ def obligations(targets, tier):
             obs.append(tie.corr("corr_framelogic", t, mstep="ft_step 11 3", m0="ft_init",
                                 describe="frame/microframe logic vs two-register model on simulator traces, frame numbers over the full 11-bit range"))
         else:
+            obs.append(tie.cmon("oracle_device_utmi", t, mon="e2e_mon", m0="e2e_m0",
+                                describe="runtime oracle on the complete USBDevice over UTMI: frame_number / microframe_number / new_frame / "
+                                         "sof_detected move only at well-formed SOF packets, exactly as the end-to-end specification says "
+                                         "(histories with full-speed style rx_valid pacing and data packets crafted to end in / contain "
+                                         "well-formed token bytes)"))
             obs.append(tie.corr("corr_device_utmi", t, mstep="e2e_step", m0="e2e_init",
                                 describe="complete USBDevice (real token detector) driven with SOF and other packets over UTMI vs the "
                                          "end-to-end specification (well-formed SOF packets -> frame recurrence)"))
@@ -207,8 +285,9 @@ LEVEL_TEXT = ("Machine-checked proof. (1) For all widths fw/mw and every history
               "(token detector stubbed so that its reports are free inputs) is proved equal to the model on all traces, of any length, whose "
               "frame values come from a finite set exercising every frame bit both ways (certified product reachability; C21_framelogic). "
               "(3) Not proved, only checked by correspondence on simulator traces: frame values over the full 11-bit range, and the complete "
-              "USBDevice with its real token detector driven by SOF / other / malformed packets over UTMI against the end-to-end "
-              "specification (PID 0xA5, CRC5, 3 bytes exactly).")
+              "USBDevice with its real token detector driven over UTMI (SOFs interleaved with token-lookalike data packets, handshakes, "
+              "malformed packets; back-to-back and full-speed style rx_valid pacing) against the end-to-end specification (PID 0xA5, "
+              "CRC5, 3 bytes exactly), as correspondence and as a runtime oracle: the four outputs move only at well-formed SOFs.")
 LEVEL_NOTE = ("Trusted: Coq kernel + vm_compute, Amaranth elaboration, nir2coq.py/Netlist.v and harness/slice.py (cone-of-influence slicing; the "
               "sliced machine is validated each run against pysim of the unsliced device). An all-values netlist tie is out of reach for "
               "explicit-state closure (2^11 frame values x 2^14 register states); the restriction is on frame VALUES only, not on trace "
